@@ -12,7 +12,8 @@ os_ = [o for o in vc.obls if opat in o.name]
 o = os_[0]
 print('obligation:', o.name)
 print('goal:', o.goal[:3000])
-q = vc.query(o, 1)
+import os
+q = vc.query(o, 1, noq=bool(os.environ.get('NOQ')))
 if terms:
     q = q.replace('(get-model)', '')
     q = q.replace('(check-sat)', '(check-sat)\n(get-value (%s))' % ' '.join(terms))
